@@ -44,6 +44,10 @@ SIZES = ['missing', '-all', '-item', '-1', '+1', '+item', '+k']
 def corruptions():
     for f in ('missing', 'emptyfile', 'notjson', 'truncated-json', 'nondict-list', 'nondict-num', 'nondict-str', 'nondict-null'):
         yield {'c': 'file', 'how': f}
+    for k in ('numtype', 'shape', 'arrayorder', 'byteorder', 'darrobject'):
+        for ver in ('99.1.0', '1.0.0', '0.0.1'):
+            yield {'c': 'key-removed', 'key': k, 'ver': ver}
+            yield {'c': 'token', 'key': k, 'v': TOKENS[k][0], 'ver': ver} if k in TOKENS else {'c': 'key-retyped', 'key': k, 'to': 0, 'ver': ver}
     for k in ('numtype', 'shape', 'arrayorder', 'darrversion', 'byteorder', 'darrobject'):
         yield {'c': 'key-removed', 'key': k}
         for i, _ in enumerate(RETYPES):
@@ -187,6 +191,10 @@ def apply_corruption(corr, sub):
         if not 0 <= j < len(order):
             j = i - 1 if corr['dir'] == 'bigger' else i + 1
         dj['numtype'] = order[j]
+    if corr.get('ver') and corr.get('key') != 'darrversion' and 'darrversion' in dj:
+        # the (otherwise invalid) description also claims to come from a newer / an older release of the library - which by itself
+        # is accepted, with a warning: it must not make the library more tolerant about anything else
+        dj['darrversion'] = corr['ver']
     with open(dp, 'w') as f:
         json.dump(dj, f)
     return True
